@@ -1,5 +1,5 @@
-\* spec mutation "empty-range-gte": TLC must reject it (expected: Inv_C12_Refines)
-CONSTANTS MaxAdds = 2  MVs = {0}  Extra = FALSE  Mut = "empty-range-gte"
+\* spec mutation "intersects-stops-at-first": TLC must reject it (expected: Inv_C12_MultiKey)
+CONSTANTS MaxAdds = 2  MVs = {0}  Extra = FALSE  Mut = "intersects-stops-at-first"
 SPECIFICATION Spec
 INVARIANTS TypeOK Inv_C12_Refines Inv_C12_MinValues Inv_C12_Overlap Inv_C12_Commutative Inv_C12_Associative
            Inv_C12_Idempotent Inv_C12_Compatible Inv_C12_MultiKey Inv_C13_Serialization Inv_C13_Any
